@@ -172,6 +172,8 @@ func init() {
 			Run: func(P *Program, R *Report) { randomizeRuleAs(P, R, "C07.i") }},
 		Rule{ID: "C07.g", Explain: "the revocation proof commitment draws r2, r3 and the four non-shared randomisers from distinct generator calls with the specified limits (symbolic terms); the shared alpha randomiser comes from the caller.",
 			Run: func(P *Program, R *Report) { revocationRandomizersRule(P, R) }},
+		Rule{ID: "C07.j", Explain: "each drawn randomiser is the one used under its name: the by-name lookups of the non-revocation proof commitment (Secret, Randomizer) answer every name with that name's own entry (same rule as C11.l); a lookup that answers one name with another's randomiser leaves a drawn randomiser unused and lets two responses share one.",
+			Run: func(P *Program, R *Report) { lookupFaithfulRule(P, R, "C07.j", revocationLookups[:2]) }},
 	)
 }
 
@@ -200,6 +202,12 @@ func sinksDirect(fn *ssa.Function) []sinkInfo {
 		switch x := i.(type) {
 		case *ssa.Store:
 			s = sinkInfo{ins: x, target: desc(x.Addr), val: x.Val}
+			// an entry of a record that stands for a map with constant keys (see recordForMap): the map update
+			if fa, isFA := x.Addr.(*ssa.FieldAddr); isFA {
+				if rec, key, ok := recordEntry(fa); ok {
+					s = sinkInfo{ins: x, target: desc(rec), key: "\"" + key + "\"", val: x.Val}
+				}
+			}
 		case *ssa.MapUpdate:
 			s = sinkInfo{ins: x, target: desc(x.Map), key: desc(x.Key), val: x.Value}
 		default:
